@@ -13,6 +13,7 @@
 package vnet
 
 import (
+	"strings"
 	"context"
 	"errors"
 	"fmt"
@@ -253,8 +254,20 @@ func (c *Conn) Received() []byte {
 // Pending returns the number of unread bytes.
 func (c *Conn) Pending() int { return c.inBytes }
 
-func (c *Conn) LocalAddr() net.Addr  { return addr(c.Name) }
-func (c *Conn) RemoteAddr() net.Addr { return addr(c.Name + ".peer") }
+// Addresses as on a unix stream socket whose clients did not bind: the accepting side's connections all have the
+// listener's address as local and the empty address as remote address (nothing in them tells two peers apart).
+func (c *Conn) LocalAddr() net.Addr {
+	if strings.HasSuffix(c.Name, ".srv") {
+		return addr("@vnet")
+	}
+	return addr("")
+}
+func (c *Conn) RemoteAddr() net.Addr {
+	if strings.HasSuffix(c.Name, ".srv") {
+		return addr("")
+	}
+	return addr("@vnet")
+}
 
 var past = time.Unix(1000000000, 0) // any non-zero deadline before 2001 counts as "already expired"
 
